@@ -46,7 +46,7 @@ impl Area for MacroArea {
         let lnames: Vec<&str> = if rng.chance(10) { vec![] } else if rng.chance(50) { vec!["l"] } else { vec!["l", "method"] };
         let buckets: Vec<f64> = match rng.below(8) { 0 => vec![], 1 => vec![0.25, 0.5, 4.0], 2 => vec![1.0, f64::INFINITY], 3 => vec![2.0, 1.0], 4 => vec![f64::INFINITY], 5 => vec![1.0, f64::INFINITY, f64::INFINITY], 6 => vec![f64::NEG_INFINITY, -0.0], _ => vec![0.1] };
         vec![format!("macro site={} comma={} name={} help={} c1={} c2={} lnames={} buckets={} reg={} uniq={:x}", site, rng.below(2), hex_list(&[*rng.pick(&["m", "req_total", "a:b"])]), hex_list(&[*rng.pick(&["h", "help text", "h", "help", "x", ""])]),
-            pairs_str(&c1), pairs_str(&c2), hex_list(&lnames), f64_list(&buckets), rng.pick(&["custom", "custom", "prefixed"]), rng.next() & 0xffffff)]
+            pairs_str(&c1), pairs_str(&c2), hex_list(&lnames), f64_list(&buckets), rng.pick(&["custom", "custom", "prefixed"]), rng.next() & 0xffff_ffff_ffff_ffff)]
     }
     fn exec(&self, lines: &[String], stats: &mut Stats) -> ExecOut {
         let mut outs = vec![]; let mut fails: Vec<Failure> = vec![];
